@@ -83,7 +83,8 @@ def build_paths(text):
     paths = []
     for h in b.houses:
         paths.extend(dump.dump_store(h.store, values=False).keys())
-    refs = [r[1] for r in dump.act_shares(b.houses)]
+    # Share.name / Node.name carry no leading dot; store paths are written with it
+    refs = [r[1] if r[1].startswith(".") else "." + r[1] for r in dump.act_shares(b.houses)]
     return "ok", sorted(paths), refs, b.houses, ""
 
 
@@ -179,7 +180,9 @@ def direct_expectations(prog, houses):
             continue
         act = None
         for a in frame.enacts:
-            if a.count == line_index + 1 and type(a.actor).__name__ in ("PokeDirect", "PokeIndirect"):
+            # Builder has already read the look-ahead line when it dispatches a command, so the act
+            # of the command on (1-based) file line n carries count n + 1 in a script without blank lines
+            if a.count == line_index + 2 and type(a.actor).__name__ in ("PokeDirect", "PokeIndirect"):
                 act = a
         if act is None:
             continue
